@@ -363,7 +363,8 @@ def _is_scanned_value(fi: FuncInfo, key: ast.AST, member: ast.AST,
     from sa.coords import reaching_def, resolve, variants
     k = resolve(key, at)
     base = k.value if isinstance(k, ast.Subscript) else k
-    kv = variants(base, at)
+    # strict: the text of a value is a different grouping key (7 vs "7")
+    kv = variants(base, at, 0, True)
     m = member
     if isinstance(m, ast.Name):
         d = reaching_def(m.id, at)
@@ -515,9 +516,88 @@ def d5_params(chk: Check) -> None:
                      "definition: {}".format(table, want))
 
 
+def d6_partition(chk: Check) -> None:
+    """min()/max(): every member of the collection is filed under the
+    matches or under the others on every path through its iteration, so
+    that the inverted keyword selects exactly the complement."""
+    prog = chk.prog
+    chk.rule("C13-D6", "min/max file every member under matches or others "
+             "on every path through its iteration", floor=6)
+    for q in ("KeywordSearches.min", "KeywordSearches.max"):
+        fi = prog.func(q)
+        data = fi.params()[0]
+        for loop, child, ok in inversion.unjudged_loops(fi, data):
+            text = "{}: for {} in {}".format(fi.node.name, src(loop.target),
+                                             src(loop.iter))
+            if ok:
+                chk.ok("C13-D6", fi, loop, text,
+                       "a record of `{}` is stored on every path".format(
+                           child))
+            else:
+                chk.fail("C13-D6", fi, loop, text,
+                         "some path through the iteration files `{}` "
+                         "nowhere: it is missing from {}() and from !{}()"
+                         .format(child, fi.node.name, fi.node.name))
+
+
+def d7_branches_exclusive(chk: Check) -> None:
+    """has_child(): once the elements of an Array-of-Hashes have been
+    judged one by one (delegation to the same helper per element), the list
+    itself is not judged again by the plain-list test on the same path."""
+    from sa.flow import Flow
+    prog = chk.prog
+    chk.rule("C13-D7", "has_child: after delegating to its elements an "
+             "Array-of-Hashes is not judged a second time as a plain list",
+             floor=2)
+    for q in ("KeywordSearches._has_concrete_child",
+              "KeywordSearches._has_anchored_child"):
+        fi = prog.func(q)
+        me = "KeywordSearches." + fi.node.name
+        sites = {id(s[0]) for s in inversion.match_sites(fi)
+                 if inversion.check_xor(s[1], s[2], s[3])}
+        if not sites:
+            raise AnalysisError("no inversion test in " + q)
+        hits: List[ast.AST] = []
+
+        def delegates(stmt: ast.AST) -> bool:
+            return any(isinstance(c, ast.Call) and src(c.func) == me
+                       for c in ast.walk(stmt))
+
+        def transfer(stmt: ast.stmt, st, flow):
+            if delegates(stmt):
+                return [True]
+            return [st]
+
+        def bind(target, it_expr, st, flow):
+            if delegates(it_expr):
+                return [True]
+            return [st]
+
+        def branch(test: ast.AST, st, flow):
+            from sa.model import parent as _parent
+            p = _parent(test)
+            if st and p is not None and id(p) in sites:
+                hits.append(p)
+            return [st], [st]
+        Flow(transfer, branch, bind=bind).run(fi.node.body, [False])
+        text = fi.node.name
+        if hits:
+            chk.fail("C13-D7", fi, hits[0], text,
+                     "after the per-element delegation control reaches the "
+                     "test `if {}` for the list as a whole: the inverted "
+                     "keyword yields the list itself as an extra match"
+                     .format(src(hits[0].test)[:60]))
+        else:
+            chk.ok("C13-D7", fi, fi.node, text,
+                   "no inversion test is reachable after the delegation "
+                   "loop ({} tests)".format(len(sites)))
+
+
 def run(chk: Check) -> None:
     d1_routing(chk)
     d2_extremes(chk)
     d3_groups(chk)
     d4_misc(chk)
     d5_params(chk)
+    d6_partition(chk)
+    d7_branches_exclusive(chk)
